@@ -353,6 +353,10 @@ def gen_project(rng, k=None):
                 nodes[q].setdefault("prec", []).append({"target": fid, "ref": ref_for(rng, q, fid), "gap": d.get("gap"), "glen": d.get("glen"), "onstart": d.get("onstart", False)})
             else:
                 t.setdefault("deps", []).append(d)
+    for fid in order:
+        t = nodes[fid]
+        if (len(t.get("deps") or []) > 1 or len(t.get("prec") or []) > 1) and pick(rng, 0.4):
+            t["split_deps"] = True           # written as one `depends` / `precedes` statement per edge
     # pins, modes, limits
     own, alle = A.all_edges(p)
     has_succ = set()
@@ -382,7 +386,8 @@ def gen_project(rng, k=None):
                     t["end"] = dt + rng.choice([0, 8 * H])
                 else:
                     t["start"] = dt
-        if env == "mixed" and leaf and not k.forward_only and pick(rng, k.p_taskmode):
+        if env == "mixed" and (leaf or pick(rng, 0.5)) and not k.forward_only and pick(rng, k.p_taskmode):
+            # (also on containers: their children inherit the direction)
             t["mode"] = rng.choice(["asap", "alap"])
             if t["mode"] == "alap" and "end" not in t and pick(rng, 0.7):
                 t["end"] = day(rng.randrange(2, max(3, min(ndays, 12)))) + 17 * H
@@ -433,6 +438,9 @@ def gen_limits(rng, G, group=False):
         if pick(rng, 0.3):
             # values that are not a whole number of slots: the limit is the number of WHOLE slots that fit
             lim["dailymax"] = rng.choice(["3.5h", "2.5h", "150min", "100min", "2.75h", "4.5h", "1.5h"])
+    if pick(rng, 0.06):
+        # a limit shorter than one slot: no whole slot fits, nothing can be booked under it
+        lim["dailymax"] = {3600: "30min", 1800: "20min", 900: "10min"}.get(G, "30min" if G > 1800 else "4min")
     if not lim or pick(rng, 0.4):
         lim["weeklymax"] = rng.choice(["10h", "12h", "20h", "8h"]) if not group else rng.choice(["15h", "25h"])
         if pick(rng, 0.25):
